@@ -50,8 +50,13 @@ class CertFam(Family):
         honest_qcs = ["genesis"]
         views = []
         v = 0
+        big = rng.random() < 0.15   # views around 2^63: the high-QC sort must not use signed differences
         for k in range(1, nb + 1):
             v += rng.choice([1, 1, 2])
+            if big and k == 2:
+                v = 2**63 - 1
+            elif big and k == 3:
+                v = 2**63 + 1
             b = f"B{k}"
             L.append(f"block {b} parent={prevb} view={v} proposer={R()} qc={prevqc}")
             views.append((b, v))
